@@ -13,6 +13,8 @@ EXPLANATION = (
 NOT_DECIDED = ("distance in (0, step], helix accuracy, momentum conservation inside the steppers, "
                "chord / intersection tolerances (numeric)")
 
+TECHNIQUE = ('CFG pairing (ODE position write <-> geometry move), reaching definitions for the final direction, loop-progress (every body path redefines a loop-condition variable), guard dominance for the boundary flag')
+
 UNITS = [
     "src/celeritas/global/alongstep/AlongStepUniformMscAction.cc",
     "src/celeritas/global/alongstep/AlongStepRZMapFieldMscAction.cc",
